@@ -20,11 +20,10 @@ Qed.
 Lemma hs_kept : forall s s', @keepf _ _ ri_hosts s_nodes s s' -> hs s -> hs s'.
 Proof. intros s s' [K1 K2] H k n. rewrite K1, K2. apply H. Qed.
 
-Lemma hs_node : forall s n v, hs s -> hs (on_node true s n v).
+Lemma hs_node_forced : forall s n v, hs s -> hs (on_node_forced true s n v).
 Proof.
-  intros s n v H. rewrite on_node_eq. cbv zeta.
+  intros s n v H. rewrite on_node_forced_eq. cbv zeta.
   set (old := aget N.eqb (s_nodes s) n). set (new := option_map ninfo_of v).
-  destruct (opt_eqb ninfo_eqb old new) eqn:U; [exact H|].
   set (s1 := st1 true s n old new). set (s2 := st2 s1 n old). set (s3 := st3 s2 n new).
   assert (MN : forall y, aget N.eqb (s_nodes (st4 s3 n)) y = if N.eqb n y then new else aget N.eqb (s_nodes s) y).
   { intros y. unfold s3, s2, s1, old. apply mid_nodes. }
@@ -79,6 +78,9 @@ Proof.
     rewrite in_insert_sorted. split; [intros [X|X]; [congruence|exact X]|now right].
 Qed.
 
+Lemma hs_node : forall s n v, hs s -> hs (on_node true s n v).
+Proof. intros s n v H. unfold on_node. destruct (node_unchanged s n v); [exact H|now apply hs_node_forced]. Qed.
+
 Lemma hs_step : forall s o, hs s -> hs (apply_op true s o).
 Proof.
   intros s o H. unfold apply_op.
@@ -88,6 +90,15 @@ Proof.
   - apply (hs_kept s); [apply keepf_on_block; auto|exact H].
   - now apply hs_node.
   - apply (hs_kept s); [apply keepf_on_wep; auto|exact H].
+Qed.
+
+Lemma hs_fstep : forall s x, hs s -> hs (apply_fop true s x).
+Proof.
+  intros s [force o] H. destruct force; [|now apply hs_step].
+  assert (FL : forall y, hs y -> hs (flush y)) by (intros y; apply hs_kept, keepf_flush; auto).
+  destruct o as [c v|c v|n v|id cs]; cbn [apply_fop]; try (now apply hs_step); apply FL.
+  - now apply hs_node_forced.
+  - apply (hs_kept s); [apply keepf_on_wep_forced; auto|exact H].
 Qed.
 
 (* ---------------------------------------------------------------- link to the datastore's node table *)
